@@ -382,9 +382,14 @@ FormatterToSourceTree::comment(const XMLCh* const   data)
 
 void
 FormatterToSourceTree::cdata(
-            const XMLCh* const  /* ch */,
-            const size_type     /* length */)
+            const XMLCh* const  ch,
+            const size_type     length)
 {
+    // The source tree follows the XPath data model, which has no
+    // CDATA section nodes, so the characters become ordinary text.
+    // (Dropping them made this result target lose the content of
+    // every element listed in xsl:output cdata-section-elements.)
+    characters(ch, length);
 }
 
 
